@@ -142,11 +142,14 @@ def gen_case(r, i):
     nfiles = r.weighted([(2, 3), (3, 4), (4, 4), (5, 2), (6, 1)])
     mode = r.weighted([("valid", 7), ("mixed", 3)])
     cyclic = r.chance(0.3)
-    names = r.shuffle(FNAMES)[:nfiles]
-    nss = [names[0]]                       # the main grammar sits in the main folder
-    for n in names[1:]:
+    nss = [r.choice(FNAMES)]               # the main grammar sits in the main folder
+    while len(nss) < nfiles:
+        # the same file name may occur in several folders (p/b.tx and b.tx are different grammars)
         d = r.choice(DIRS)
-        nss.append((d + "." + n) if d else n)
+        n = r.choice(FNAMES[:4]) if r.chance(0.5) else r.choice(FNAMES)
+        ns = (d + "." + n) if d else n
+        if ns not in nss:
+            nss.append(ns)
     files = []
     for k, ns in enumerate(nss):
         nrules = r.weighted([(1, 3), (2, 4), (3, 2), (4, 1)])
@@ -278,7 +281,7 @@ def build_case(files, nested_root):
         inner = LEAF[leaf[1]][0] if leaf[0] == BASE else kw(fidx[leaf[0]], leaf[1])
         return " ".join(s_open + [inner] + s_close)
 
-    for node, k, t in edges[:14]:
+    for node, k, t in edges[:10]:
         chain = paths[node] + [(node, k)]
         expect = [fqn_of(n) for n, _ in chain] + [LEAF[t[1]][1] if t[0] == BASE else fqn_of(t)]
         texts.append({"text": text_for(chain, t), "path": [kk for _, kk in chain], "expect": expect})
@@ -415,6 +418,11 @@ def compare(case, o, mv):
         if m[k] != i[k]:
             diffs.append("%s: impl %r model %r" % (k, i[k], m[k]))
     if i["E"] == "ok":
+        # the model's log of imports of a grammar still being loaded = the static simulation
+        # used by the finding classifier (the theorem's hypothesis is `backs = []`)
+        sim = ";".join("%s>%s" % (core.canon_text(a), core.canon_text(b)) for a, b in load_order(fs_map(case), case["mainns"])[2])
+        if m["B"] != sim:
+            diffs.append("B: classifier simulation %r model %r" % (sim, m["B"]))
         for k in ("S", "I", "Q"):
             if m[k] != i[k]:
                 diffs.append("%s: impl %r model %r" % (k, i[k], m[k]))
@@ -561,7 +569,7 @@ def exhaustive_cases():
 
 def run(chk):
     chk.prove([])
-    n = 900 if chk.thorough else 170
+    n = 900 if chk.thorough else 150
     cases = corpus_cases()
     ncorpus = len(cases)
     for i in range(n):
